@@ -30,7 +30,7 @@ func init() {
 		Level: "exploration",
 		Rule: "enumerated domains: (0) all 132 000 strings <?D{1,2}:DD(am|pm)?>?; (1) all duration strings sign{none,+,-} x {Hh,Mm,HhMm}, H 0-120, M 0-130, plus padded/oversized/malformed variants, and the spec's equivalence classes; " +
 			"(2+k) start time k of the 4320 shifted times x both notations (write/re-read), x all 4320 end times (range validity, duration, text), x all durations -2880..2880 (Plus result or error); (4322+y) all strings YYYY?MM?DD of year y with both separators and both mixed forms, MM 00-13, DD 00-32. " +
-			"thorough = everything (exhaustive); quick = blocks 0 and 1 complete, a seed-chosen 1/16 of the start-time blocks, and the years of one 400-year window + edge years. " +
+			"thorough = everything (exhaustive); quick = blocks 0 and 1 complete, a seed-chosen 1/4 of the start-time blocks, and the date strings of ALL years. " +
 			"non-trivial & distinct = accepted literal or valid (time,time)/(time,duration) combination, counted per block by hash of the block's accepted-set signature plus every accepted time/duration string individually",
 		Assumptions: []string{
 			"reference literal semantics written from Specification.md (harness/ref/literals.go)",
@@ -62,7 +62,7 @@ func runC16(e *core.Env) {
 			e.End(i)
 		case i < 2+c16Times:
 			k := int(i - 2)
-			if e.Quick() && e.OnlyCase < 0 && core.Hash64(fmt.Sprint(e.Seed, "tblock", k))%16 != 0 {
+			if e.Quick() && e.OnlyCase < 0 && core.Hash64(fmt.Sprint(e.Seed, "tblock", k))%4 != 0 {
 				continue
 			}
 			e.Begin(i, []byte(fmt.Sprintf("start time #%d %s", k, ref.FormatTime(c16TimeOfIndex(k)))))
@@ -70,9 +70,7 @@ func runC16(e *core.Env) {
 			e.End(i)
 		default:
 			y := int(i - 2 - c16Times)
-			if e.Quick() && e.OnlyCase < 0 && !years[y] {
-				continue
-			}
+			_ = years
 			e.Begin(i, []byte(fmt.Sprintf("dates of year %04d", y)))
 			e.Evals(c16Dates(e, y))
 			e.End(i)
